@@ -656,8 +656,8 @@ def emit(w, desc, stream):
 def generate(rng, tier, outdir):
     w = CaseWriter(outdir, IMPORTS, CASE_TYPES)
     w.SHARD = 20          # smaller shards: the case literals are large, the shards are compiled in parallel
-    n_valid = 170 if tier == "quick" else 900
-    n_mal = 70 if tier == "quick" else 300
+    n_valid = 170 if tier == "quick" else 1500
+    n_mal = 70 if tier == "quick" else 400
     work_cap = 700 if tier == "quick" else 2500
 
     # ---- handwritten witnesses first: F2 class, both halves in one partition, identity restriction ----
